@@ -1220,12 +1220,44 @@ def run_reach(fx, rep, entries, table_name, rule, skip_fn=None, kinds=None):
             hist[why.split(" ")[0]] += 1
     used = set()
     n_tab = 0
+    # A reviewed site keeps its review when it is moved, unchanged, into a private helper that only the reviewed function calls
+    # ("extract function"): a group that exceeds its own allowance may use what the group of the same kind of its unique caller
+    # has left over (reviewed count minus the undischarged sites still found there).
+    und_count = {key: len([s for s, why in lst if not why]) for key, lst in groups.items()}
+    callers_memo = []
+
+    def callers_of(bid):
+        if not callers_memo:
+            cm = defaultdict(set)
+            for b in fx.bodies.values():
+                if b.mir is None or "::tests::" in b.sname:
+                    continue
+                for bb, t in b.mir.calls():
+                    if not t.callee.indirect and t.callee.res_id in fx.bodies:
+                        cm[t.callee.res_id].add(b.sname.split("::{closure")[0])
+            callers_memo.append(cm)
+        return callers_memo[0].get(bid, set())
+    leftover = {}
+    for key, ent in accepted.items():
+        leftover[key] = ent["n"] - und_count.get(key, 0)
     for key in sorted(groups):
         lst = groups[key]
         s0 = lst[0][0]
         und = [s for s, why in lst if not why]
         ent = accepted.get(key)
         allowed = ent["n"] if ent else 0
+        if len(und) > allowed:
+            cs = callers_of(s0.body.id) - {s0.body.sname}
+            if len(cs) == 1:
+                ckey = "%s|%s" % (next(iter(cs)), s0.coarse)
+                need = len(und) - allowed
+                if leftover.get(ckey, 0) >= need:
+                    leftover[ckey] -= need
+                    used.add(ckey)
+                    n_tab += len(und)
+                    rep.add(rule, s0.body.sname, s0.coarse, True, "%d site(s), %d by rule, %d reviewed as part of the only caller %s: %s" % (
+                        len(lst), len(lst) - len(und), len(und), ckey.split("|")[0].split("::")[-1], accepted[ckey]["why"]), s0.body.loc(min(s.line for s, _ in lst)))
+                    continue
         loc = s0.body.loc(min(s.line for s, _ in lst))
         if not und:
             rep.add(rule, s0.body.sname, s0.coarse, True, "%d site(s): %s" % (len(lst), "; ".join(sorted({w for _, w in lst}))[:300]), loc)
